@@ -135,7 +135,15 @@ pub fn build_plain(cx: &mut Ctx, d: &SeqDesc) -> R<EliasFano> {
                     break;
                 }
                 if d.builder == 0 {
-                    cx.must("push", || b.push(d.values[i]))?;
+                    // some values go through the public unsafe push_unchecked
+                    // (contract respected: monotone, <= u, at most n values);
+                    // the checked pushes around them must still reject
+                    if d.seed % 3 == 0 && sm(&mut s) % 3 == 0 {
+                        cx.label("mixed_push_unchecked");
+                        cx.must("push_unchecked", || unsafe { b.push_unchecked(d.values[i]) })?;
+                    } else {
+                        cx.must("push", || b.push(d.values[i]))?;
+                    }
                     i += 1;
                 } else {
                     // extend with a chunk that stops at the next probe point
